@@ -517,3 +517,56 @@ Proof.
   - destruct (pow_approx_bound_rounds base exp prec r Hb1 Hb2 ltac:(lia) Hhalf Hprec H) as (k & Hk & HB).
     pose proof (pow_eps_uniform k Hk). lra.
 Qed.
+
+(* ---------- Pow ---------- *)
+(* the bound for the precision Pow passes: 1e-8 + 1e-12 *)
+Definition pow_err : R := dR pow_precision + / 10 ^ 12.
+Lemma pow_err_val : pow_err = 1 / 10 ^ 8 + 1 / 10 ^ 12.
+Proof.
+  unfold pow_err. rewrite dR_eq. unfold u18. rewrite T18_val.
+  replace (IZR pow_precision) with (10 ^ 10) by (rewrite pow_IZR; apply f_equal; vm_compute; reflexivity).
+  field.
+Qed.
+Lemma pow_precision_range : (0 <= pow_precision <= P18)%Z.
+Proof. vm_compute. split; discriminate. Qed.
+
+(* Pow(base, exp) for exp >= 0 is the rounded product of the LegacyDec integer power base^n (n = the integer part, computed
+   by square-and-multiply with rounded products) and PowApprox(base, fractional part) *)
+Lemma pow_decompose : forall base exp r, (0 < base < 2 * P18)%Z -> (0 <= exp)%Z -> pow base exp = Ok r ->
+  let n := Z.quot exp P18 in let f := Z.rem exp P18 in
+  exists ip, dc_power base n = Ok ip /\
+    ((f = 0%Z /\ r = ip) \/
+     (f <> 0%Z /\ exists fp, pow_approx base f pow_precision = Ok fp /\ r = d_mul ip fp)).
+Proof.
+  intros base exp r Hb He H n f.
+  assert (HP : (0 < P18)%Z) by (vm_compute; reflexivity).
+  unfold pow in H. destruct (Z.ltb_spec 0 base); [|lia]. cbn [negb] in H. rewrite pow_two_val in H.
+  destruct (Z.geb_spec base (2 * P18)); [lia|].
+  unfold d_truncate_dec in H. fold n in H.
+  assert (Ef : (exp - n * P18 = f)%Z).
+  { unfold n, f. pose proof (Z.quot_rem' exp P18). lia. }
+  unfold dc_sub in H. rewrite Ef in H.
+  destruct (d_check f) as [f'|] eqn:E1; [|discriminate H]. apply d_check_ok in E1. subst f'. cbn [bind] in H.
+  unfold d_truncate_int64 in H. rewrite Z.quot_mul in H by lia.
+  assert (Hn : (0 <= n)%Z) by (apply Z.quot_pos; lia).
+  destruct ((- 2 ^ 63 <=? n)%Z && (n <? 2 ^ 63)%Z); [|discriminate H]. cbn [bind] in H.
+  destruct (Z.ltb_spec n 0); [lia|].
+  destruct (dc_power base n) as [ip|]; [|discriminate H]. cbn [bind] in H.
+  exists ip. split; [reflexivity|].
+  destruct (Z.eqb_spec f 0) as [E0|E0].
+  - left. split; [assumption|]. inversion H. reflexivity.
+  - right. split; [assumption|]. destruct (pow_approx base f pow_precision) as [fp|]; [|discriminate H]. cbn [bind] in H.
+    exists fp. split; [reflexivity|]. unfold dc_mul in H. apply d_check_ok in H. assumption.
+Qed.
+
+Lemma dc_power_0 : forall d, dc_power d 0 = Ok P18.
+Proof. reflexivity. Qed.
+Lemma dc_power_1 : forall d ip, dc_power d 1 = Ok ip -> ip = d.
+Proof.
+  intros d ip H. unfold dc_power in H. cbn [Z.eqb] in H.
+  change (dc_power_loop 64 d P18 1) with (Ok (d, P18)) in H. cbn [bind] in H.
+  unfold dc_mul in H. apply d_check_ok in H. subst ip. unfold d_mul. apply chop_round_exact. vm_compute. reflexivity.
+Qed.
+
+Lemma d_mul_one_l : forall z, d_mul P18 z = z.
+Proof. intros z. unfold d_mul. rewrite Z.mul_comm. apply chop_round_exact. vm_compute. reflexivity. Qed.
